@@ -229,16 +229,20 @@ Lin(p, r) ==
        [] pend[p].op = "cu" -> LinCu(p, r)
        [] pend[p].op = "au" -> LinAu(p, r)
 
-\* results a call may produce (for model checking, and for calls whose return was not recorded)
+\* results a call may produce (for model checking, and for calls whose return was not recorded).
+\* Freed sets: nothing, the whole chain of an edition, or its first slice only (the prefix that is freed when the stale
+\* edition of an update goes / the fresh prefix that is freed first when the fresh one goes; a recorded history can end
+\* in the middle of a call).  Declaring the whole chain freed when only a part was is never less permissive.
 With(a, b, s, L, F) == [a |-> a, b |-> b, s |-> s, L |-> L, F |-> F, any |-> FALSE]
+FreeSets == {{}} \cup {Range(chain[x]) : x \in Anchor} \cup {{chain[x][1]} : x \in {y \in Anchor : chain[y] # <<>>}}
 ResDom(p) ==
   LET op == pend[p].op  AA == Anchor \cup {NoA} IN
-  CASE op = "ow" -> {With(a, NoA, NoS, <<>>, F) : a \in AA, F \in SUBSET Slice}
+  CASE op = "ow" -> {With(a, NoA, NoS, <<>>, F) : a \in AA, F \in FreeSets}
     [] op = "or" -> {With(a, NoA, NoS, <<>>, {}) : a \in AA}
     [] op \in {"ws", "us"} -> {With(NoA, NoA, s, <<>>, {}) : s \in Slice \cup {NoS}}
     [] op = "rs" -> {[NoRes EXCEPT !.any = TRUE]} \cup {With(NoA, NoA, NoS, SubSeq(chain[hold[p].a], 1, n), {}) : n \in 0..Len(chain[hold[p].a])}
-    [] op \in {"aw", "cf", "fe", "fk", "p", "au"} -> {With(NoA, NoA, NoS, <<>>, F) : F \in SUBSET Slice}
-    [] op = "ou" -> {With(a, b, NoS, <<>>, F) : a \in AA, b \in AA, F \in SUBSET Slice}
+    [] op \in {"aw", "cf", "fe", "fk", "p", "au"} -> {With(NoA, NoA, NoS, <<>>, F) : F \in FreeSets}
+    [] op = "ou" -> {With(a, b, NoS, <<>>, F) : a \in AA, b \in AA, F \in FreeSets}
     [] OTHER -> {NoRes}
 
 Ret(p, op, r) ==
